@@ -320,3 +320,8 @@ PROPS["C20"] = dict(
         _c20("v1", "priority", "harness/v1/priority", "^VerifC20_", dict(H=[2], J=[1]), dict(H=[2, 3], J=[1, 2])),
         _c20("v1", "join", "harness/v1/join", "^VerifC20_", dict(JS=[1, 2], M=[3]), dict(JS=[1, 2, 3], M=[4])),
     ])
+
+# translator validation groups (engine-concrete vs native on the repository's kind of test vectors)
+PROPS["C14"]["groups"].append(dict(mod="v2", pkg="priority/divider", overlay="harness/v2/divider", harness="^VerifTV_dividers$", tv=True, jobs=2, params=dict(quick={}, thorough={})))
+PROPS["C18"]["groups"].append(dict(mod="v2", pkg="priority/utils", overlay="harness/v2/utils", harness="^VerifTV_utils$", tv=True, jobs=2, params=dict(quick={}, thorough={})))
+PROPS["C13"]["groups"].append(dict(mod="v2", pkg="limit", overlay="harness/v2/limit", harness="^VerifTV_rate$", tv=True, jobs=2, mode="int", params=dict(quick={}, thorough={})))
